@@ -39,17 +39,19 @@ func removeTwoNodeCycles(g *graph.DGraph) {
 	type pair [2]*graph.Node
 
 	seen := map[pair]bool{}
-	rev := graph.EdgeSet{}
+	// a slice, not a set: the order in which edges are reversed determines the order
+	// of the adjacent nodes' in/out edge lists, and must not depend on map iteration order
+	var rev []*graph.Edge
 
 	for _, e := range g.Edges {
 		a, b := e.From, e.To
 		if seen[pair{a, b}] || seen[pair{b, a}] {
-			rev[e] = true
+			rev = append(rev, e)
 		} else {
 			seen[pair{a, b}] = true
 		}
 	}
-	for e := range rev {
+	for _, e := range rev {
 		e.Reverse()
 	}
 }
